@@ -474,6 +474,9 @@ func (e *c09Env) world(pattern, profile, H int, root int64) *c09World {
 		prev = d.LB.Hash()
 	}
 	prevOf := func(f, h int) []byte {
+		if h == 1 {
+			return nil // root 0: the forged families start at the first height
+		}
 		if int64(h-1) <= root {
 			return w.Blocks[c09FamHonest][h-1].LB.Hash()
 		}
@@ -485,6 +488,9 @@ func (e *c09Env) world(pattern, profile, H int, root int64) *c09World {
 			Vals: w.Sets[h], NextVals: w.Sets[h+1], App: "equiv", PrevHash: prevOf(c09FamEquiv, h), Slots: c09AllSign(w.Sets[h])})
 		// lunatic: the two biggest validators of the root set plus one attacker
 		rs := w.Sets[root]
+		if root == 0 {
+			rs = w.Sets[1]
+		}
 		lv := []c09Member{rs[0], rs[1], {c09Attacker, 1}}
 		if 2*(rs[0].Power+rs[1].Power) < rs[0].Power+rs[1].Power+rs[2].Power+rs[3].Power+1 { // keep more than half of the root's power whatever the rotation did
 			lv = []c09Member{rs[0], rs[1], rs[2], {c09Attacker, 1}}
